@@ -159,7 +159,8 @@ class VSocket(object):
         else:
             n = len(data)
         n = max(0, min(n, len(data)))
-        self.send_log.append((len(self.sent), n))
+        self.send_log.append((len(self.sent), n, RT.now))
+        RT.trace.append(('send', RT.now, len(self.sent), n))
         self.sent += data[:n]
         if n and self.on_send:
             self.on_send(data[:n])
@@ -359,7 +360,10 @@ class VTimer(object):
             return
         self.armed = False
         self.fired = True
+        RT.trace.append(('timer', RT.now, self.seq))
         self.function()
+        for hook in getattr(RT, 'timer_hooks', []):
+            hook(self)
 
 
 # ---------------------------------------------------------------------------
